@@ -433,6 +433,14 @@ class Evaluator:
                 if key in self.env:
                     v = self.env[key]
                     return self.wrap(v, n.get("ct")) if isinstance(v, int) else v
+                if getattr(self, "heap_mode", False) and (n.get("ct") or "").replace("const ", "").strip() in self.prog.records:
+                    # an object of a class behind a modelled address: as a value (bound to a reference) it is that address
+                    try:
+                        pv_ = self.ev(n["c"][0])
+                    except Unknown:
+                        pv_ = None
+                    if isinstance(pv_, int) and pv_ != 0:
+                        return pv_
                 self.note_absent(key)
                 raise Unknown(key)
             if op in ("++", "--"):
@@ -651,7 +659,13 @@ class Evaluator:
                         except Unknown:
                             key = None
                         keys.append(key)
-                        args.append(self.env.get(key) if key is not None else None)
+                        v__ = self.env.get(key) if key is not None else None
+                        if v__ is None and a0["k"] == "UnaryOperator" and getattr(self, "heap_mode", False) and (a0.get("ct") or "").replace("const ", "").strip() in self.prog.records:
+                            try:
+                                v__ = self.ev(a0)        # *p of class type: the object's modelled address
+                            except Unknown:
+                                v__ = None
+                        args.append(v__)
                         continue
                     if a0 is not None and a0["k"] == "UnaryOperator" and a0.get("op") == "&" and not getattr(self, "heap_mode", False):
                         tgt = f.strip(a0["c"][0], casts=False)
@@ -828,7 +842,16 @@ class Evaluator:
             for ch in n.get("c", []):
                 inner = f.strip(ch)
                 try:
-                    if inner is not None and inner["k"] in ("CXXConstructExpr", "CXXTemporaryObjectExpr"):
+                    if inner is not None and inner["k"] in ("CXXConstructExpr", "CXXTemporaryObjectExpr") and not n.get("array") \
+                            and (getattr(self, "objects", False) or self.file_local_class((self.prog.functions.get((inner.get("ctor") or {}).get("mn")) or type("o", (), {"cls": ""})).cls or "")) \
+                            and self._construct("@%d." % self._newid, inner, n):
+                        # the object is modelled: its constructor has run on the cells @<address>.<member>
+                        argv = list(self.trace[-1][1]) if self.trace and str(self.trace[-1][0]).startswith("construct ") else argv
+                        dt_ = getattr(self, "dyn_type", None)
+                        g_ = self.prog.functions.get((inner.get("ctor") or {}).get("mn"))
+                        if dt_ is not None and g_ is not None and g_.cls:
+                            dt_[self._newid] = g_.cls
+                    elif inner is not None and inner["k"] in ("CXXConstructExpr", "CXXTemporaryObjectExpr"):
                         for a in f.args(inner):
                             try:
                                 argv.append(self.ev(a))
@@ -899,6 +922,8 @@ class Evaluator:
                     return self._bin(op, a[2], b[2], "int")
             if op in ("==", "!=") and (a == 0 or b == 0):
                 return 1 if (op == "!=") else 0
+            if op in ("==", "!=") and isinstance(a, tuple) and isinstance(b, tuple) and a[1] != b[1]:
+                return 1 if (op == "!=") else 0            # pointers into two different modelled objects
             raise Unknown("pointer arithmetic %s" % op)
         if isinstance(a, float) or isinstance(b, float):
             a, b = float(a), float(b)
@@ -927,8 +952,18 @@ class Evaluator:
         elif op == "%":
             if b == 0: raise Unknown("div0")
             v = abs(a) % abs(b) * (1 if a >= 0 else -1)
-        elif op == "<<": v = a << b
-        elif op == ">>": v = a >> b
+        elif op in ("<<", ">>"):
+            # a shift count that is negative or not below the width of the (promoted) left operand is undefined
+            t_ = self.tinfo(ct) if isinstance(b, int) else None
+            if isinstance(b, int) and (b < 0 or (t_ is not None and t_.get("k") in ("int", "enum") and "bits" in t_ and b >= t_["bits"])):
+                root = self
+                while getattr(root, "_parent", None) is not None:
+                    root = root._parent
+                if not hasattr(root, "undefined_ops"):
+                    root.undefined_ops = []
+                root.undefined_ops.append("shift of a %s by %d" % (ct, b))
+                raise Unknown("undefined: shift of a %s by %d" % (ct, b))
+            v = a << b if op == "<<" else a >> b
         elif op == "&": v = a & b
         elif op == "|": v = a | b
         elif op == "^": v = a ^ b
